@@ -17,6 +17,7 @@ Open Scope N_scope.
 (* error tags (harness table in props/c13.py) *)
 Definition E_Config : N := 11.     (* SigmaConfigurationError incl. SigmaPipelineConditionError *)
 Definition E_Logsource : N := 13.  (* SigmaLogsourceError *)
+Definition E_RegexErr : N := 5.    (* SigmaRegularExpressionError *)
 Definition C_TypeError : N := 2.
 Definition C_KeyError : N := 4.
 
@@ -32,7 +33,7 @@ Inductive aval := AStr (s : str) | AInt (z : Z) | ADate (n : N) | ALevel (n : N)
 Inductive apar := QStr (s : str) | QInt (z : Z).
 
 (* the regular-expression fragment the generator draws from; re.match = anchored at the start only *)
-Inductive ratom := RLit (c : char) | RAny | RDigit | RStar | REnd.
+Inductive ratom := RLit (c : char) | RAny | RDigit | RStar | REnd | RBad.   (* RBad: a pattern re.compile rejects *)
 Definition rx := list ratom.
 
 Fixpoint rmatch (p : rx) (s : str) {struct p} : bool :=
@@ -44,6 +45,7 @@ Fixpoint rmatch (p : rx) (s : str) {struct p} : bool :=
   | RStar :: p' => (fix try (s : str) : bool :=
                       rmatch p' s || match s with [] => false | x :: s' => negb (x =? 10) && try s' end) s
   | REnd :: p' => match s with [] => rmatch p' [] | _ => false end
+  | RBad :: _ => false
   end.
 
 Fixpoint str_ltb (a b : str) : bool :=
@@ -454,6 +456,60 @@ Record item := {
   i_rule : ngroup rcond;
   i_det : ngroup dcond;
   i_field : ngroup fcond }.
+
+(* --- construction (ProcessingItem.from_dict + __post_init__) --- *)
+Record ritem := {
+  ri_id : str;
+  ri_tr : transf;
+  ri_rule : rgroup rcond;
+  ri_det : rgroup dcond;
+  ri_field : rgroup fcond }.
+
+Definition rx_valid (p : rx) : bool := negb (existsb (fun a => match a with RBad => true | _ => false end) p).
+
+(* errors raised by the constructors of the condition classes *)
+Definition rcond_new (c : rcond) : outcome unit :=
+  match c with
+  | RLogsource None None None => SigmaErr E_Logsource
+  | RTag t => if mem c_dot t then Ok tt else SigmaErr E_Value
+  | _ => Ok tt
+  end.
+Definition dcond_new (c : dcond) : outcome unit :=
+  match c with
+  | DMatchString _ p _ => if rx_valid p then Ok tt else SigmaErr E_RegexErr
+  | _ => Ok tt
+  end.
+Definition fcond_new (c : fcond) : outcome unit :=
+  match c with
+  | FIncludeRe ps | FExcludeRe ps => if forallb rx_valid ps then Ok tt else SigmaErr E_Config
+  | _ => Ok tt
+  end.
+
+Fixpoint all_ok {A} (f : A -> outcome unit) (l : list A) : outcome unit :=
+  match l with [] => Ok tt | x :: r => obind (f x) (fun _ => all_ok f r) end.
+
+(* first pass (from_dict): instantiate the conditions in order, then parse the expression text *)
+Definition pass1 {C} (new : C -> outcome unit) (g : rgroup C) : outcome unit :=
+  obind (all_ok new (map snd (form_conds (g_form g)))) (fun _ =>
+  match g_expr g with
+  | Some s => match parse_expr s with None => SigmaErr E_Config | Some _ => Ok tt end
+  | None => Ok tt
+  end).
+
+Definition build_item (ri : ritem) : outcome item :=
+  obind (pass1 rcond_new (ri_rule ri)) (fun _ =>
+  obind (pass1 dcond_new (ri_det ri)) (fun _ =>
+  obind (pass1 fcond_new (ri_field ri)) (fun _ =>
+  obind (build_group (ri_rule ri)) (fun gr =>
+  obind (build_group (ri_det ri)) (fun gd =>
+  obind (build_group (ri_field ri)) (fun gf =>
+  Ok {| i_id := ri_id ri; i_tr := ri_tr ri; i_rule := gr; i_det := gd; i_field := gf |})))))).
+
+Fixpoint build_all (l : list ritem) : outcome (list item) :=
+  match l with
+  | [] => Ok []
+  | x :: r => obind (build_item x) (fun i => obind (build_all r) (fun is => Ok (i :: is)))
+  end.
 
 Definition match_rule_conditions (it : item) (w : world) : outcome bool :=
   gate (rcond_eval w) (i_rule it).
